@@ -4,11 +4,29 @@ package yoda
 
 // Contracts for govc (see /verif/DESIGN.md). Comment-only file; compiled only under -tags verif.
 
-// RPC query with retries: assumed to return a non-nil result or an error (network I/O is external).
+// C19: the query is retried up to max-try times; it fails only if every attempt failed, and it succeeds
+// exactly when the last attempt it made succeeded (a successful retry is not reported as an error).
 //@ func abciQuery
-//@ trusted
+//@ modifies RPCok
+//@ ensures (c.maxTry > 0 && RPCok) ==> err == nil
+//@ ensures (0 < c.maxTry && c.maxTry <= MaxInt64 && err == nil) ==> RPCok
+//@ loop 0: invariant try >= 0 && (try > 0 ==> !RPCok && lastErr != nil) && (try == 0 ==> lastErr == nil)
 
 // C19: fetching a data source executable never panics, whatever bytes the cache or the chain returns
 // (executables of a few bytes are legal on chain).
 //@ func GetExecutable
+//@ modifies RPCok
 //@ ensures true
+
+// ghost: number of values sent on channels by the function under contract, and the last value sent
+//@ ghost ChanSent Int
+//@ ghost ChanLast processingResult
+
+// C19: one raw request yields exactly one result on the channel, carrying the raw request's external id;
+// exit code 255 when the executable cannot be loaded, the verification message cannot be signed or the
+// executor fails, otherwise the executor's exit code and output.
+//@ func handleRawRequest
+//@ modifies ChanSent, ChanLast, RPCok
+//@ ensures ChanSent == old(ChanSent) + 1
+//@ ensures ChanLast.rawReport.ExternalID == req.externalID
+//@ ensures ChanLast.err != nil ==> ChanLast.rawReport.ExitCode == 255
